@@ -74,12 +74,12 @@ def judge(pid, viols, crashes, spec):
             else:
                 notes["RACE " + c.get("name", "")] = 1
             continue
-        hang = c.get("timeout") or c.get("banner", "") == props.HANG
+        hang = c.get("timeout") or c.get("stalled") or c.get("banner", "") == props.HANG
         if hang:
             # the library stopped making progress with goroutines stuck (every goroutine of the
             # process blocked, or the run had to be killed): a hang of the real code
             v["formula"] = "HANG"
-            v["detail"] = "all-goroutines-blocked" if not c.get("timeout") else "no-progress-timeout"
+            v["detail"] = "stalled-goroutines-blocked" if c.get("stalled") else "all-goroutines-blocked" if not c.get("timeout") else "no-progress-timeout"
             if spec.get("hang") and not c.get("timeout"):
                 mine.append(v)
             else:
@@ -169,5 +169,18 @@ def main(argv=None):
     return rc
 
 
+def guarded_main(argv=None):
+    """any failure of the machinery itself is infrastructure trouble (exit 2), never a verdict"""
+    try:
+        return main(argv)
+    except SystemExit:
+        raise
+    except BaseException as e:   # noqa
+        import traceback
+        print("INFRASTRUCTURE: internal error of the checker: %r" % (e,))
+        traceback.print_exc(limit=6)
+        return 2
+
+
 if __name__ == "__main__":
-    sys.exit(main())
+    sys.exit(guarded_main())
